@@ -32,10 +32,10 @@ DEVS = {
     "Dev_DeleteSkipsVirtual": r"^C15 (CrossStore engine-extra|DeletedIsGone layer=engine op=\S+) kind=virtual after=delete:ok",
     "Dev_EngineCreateNoCleanup": r"^C15 CrossStore engine-extra kind=\w+ after=create\S*:fail",
     "Dev_EngineDeletePartial": r"^C15 CrossStore engine-missing kind=\w+ after=delete:fail",
-    "Dev_OverwriteLocalEngine": r"^C15 (CrossStore engine-extra|DeletedIsGone layer=engine op=\S+) kind=\w+ after=create-overwrite:ok",
-    "Dev_CalcIndexTwice": r"^C15 NamesUnique kind=calc-index how=created-twice-by-one-request",
-    "Dev_CalcIndexUnchecked": r"^C15 NamesUnique kind=calc-index how=collides-with-existing",
-    "Dev_FreeRenameStaleIndex": r"^C15 NamesUnique kind=user how=collides-with-existing after=create\S*:ok gateway-is-bootstrapper=true",
+    "Dev_OverwriteLocalEngine": r"^C15 (CrossStore engine-extra|DeletedIsGone layer=engine op=\S+) kind=(index|fixed|variable) after=create-overwrite\S*:ok other-lease=true",
+    "Dev_CalcIndexTwice": r"^C15 NamesUnique how=auto-index-created-twice",
+    "Dev_CalcIndexUnchecked": r"^C15 NamesUnique how=auto-index-collides",
+    "Dev_FreeRenameStaleIndex": r"^C15 NamesUnique how=user after=\S+:ok gateway-is-bootstrapper=true",
 }
 
 BASE = dict(Node="{1,2}", BaseName='{"a","b"}', ExtraName="{}",
@@ -49,19 +49,23 @@ CALIB = {
     "Dev_DeleteSkipsVirtual": dict(Node="{1}", BaseName='{"a"}', Kinds='{"virtual"}',
                                    Types='{"create","delete"}', MaxReq=2),
     "Dev_EngineCreateNoCleanup": dict(Node="{1}", Kinds='{"index","fixed"}', Types='{"create"}',
-                                      MaxBatch=2, MaxReq=2),
+                                      MaxBatch=2, MaxReq=1),
     "Dev_EngineDeletePartial": dict(Node="{1}", BaseName='{"a","b","c"}', Kinds='{"index","fixed"}',
-                                    Types='{"create","delete"}', MaxBatch=2, MaxReq=4),
-    "Dev_OverwriteLocalEngine": dict(Kinds='{"index","fixed"}', Types='{"create"}',
-                                     Opts='{"plain","overwrite"}', MaxReq=3),
-    "Dev_CalcIndexTwice": dict(BaseName='{"a"}', Kinds='{"calc"}', Types='{"create"}', MaxReq=1),
+                                    Types='{"create","delete"}', MaxBatch=2, MaxReq=3),
+    # judged after successful requests only: an overwrite that FAILS after the engine side
+    # of deleteOverwritten ran is the (deviation independent) engine-before-metadata window
+    "Dev_OverwriteLocalEngine": dict(BaseName='{"a"}', Kinds='{"index","free"}', Types='{"create"}',
+                                     Opts='{"plain","overwrite"}', MaxReq=2, _inv="CexCrossStore"),
+    # (with validated index names the doubled index makes the request fail instead)
+    "Dev_CalcIndexTwice": dict(BaseName='{"a"}', Kinds='{"calc"}', Types='{"create"}', MaxReq=1,
+                               _with=["Dev_CalcIndexUnchecked"]),
     "Dev_CalcIndexUnchecked": dict(Node="{1}", BaseName='{"a"}', ExtraName='{"a_time"}',
                                    Kinds='{"virtual","calc"}', Types='{"create"}', MaxReq=2),
     "Dev_FreeRenameStaleIndex": dict(Kinds='{"free"}', Types='{"create","rename"}', MaxReq=3),
 }
 
 
-def cfg(spec, consts, devs, invariants, depth=None):
+def cfg(spec, consts, devs, invariants, depth=None, view=None):
     c = dict(BASE)
     c.update(consts)
     lines = ["SPECIFICATION %s" % spec, "CONSTANTS"]
@@ -71,7 +75,10 @@ def cfg(spec, consts, devs, invariants, depth=None):
         lines.append("  %s = %s" % (d, "TRUE" if devs.get(d) else "FALSE"))
     if depth is not None:
         lines.append("  Depth = %d" % depth)
-    lines += ["CONSTRAINT Bound", "INVARIANTS " + " ".join(invariants), "CHECK_DEADLOCK FALSE", ""]
+    lines += ["CONSTRAINT " + ("GBound" if spec == "GSpec" else "Bound")]
+    if view:
+        lines.append("VIEW " + view)
+    lines += ["INVARIANTS " + " ".join(invariants), "CHECK_DEADLOCK FALSE", ""]
     return "\n".join(lines)
 
 
@@ -127,7 +134,7 @@ def design_checks(ctx, thorough):
     runs = [
         ("mc_kinds", dict(masked, Kinds='{"index","fixed","variable","virtual","free","calc","badtype"}',
                           ExtraName='{"a_time"}', MaxReq=2)),
-        ("mc_opts", dict(masked, Node="{1,2}", Kinds='{"index","virtual","free"}',
+        ("mc_opts", dict(masked, Node="{1,2}", Kinds='{"index","virtual","free"}' if thorough else '{"index","virtual"}',
                          Opts='{"plain","retrieve","overwrite"}', Types='{"create","delete"}',
                          MaxBatch=2, MaxReq=2, InjectFail="FALSE")),
         ("mc_three", dict(masked, Node="{1,2,3}", BaseName='{"a"}', Kinds='{"index","fixed","virtual","free"}',
@@ -141,7 +148,8 @@ def design_checks(ctx, thorough):
     def one(item):
         tag, consts = item
         return tag, ctx.tlc(AREA, "ChannelSvc", tag + ".cfg", files={tag + ".cfg": cfg("Spec", consts, {}, inv)},
-                            tag=tag, workers=3, timeout=1500, coverage=(tag == "mc_kinds"))
+                            tag=tag, workers=4 if thorough else 3, timeout=1500,
+                            coverage=(thorough and tag == "mc_kinds"))
     ctx.spec_copy(AREA)
     with concurrent.futures.ThreadPoolExecutor(max_workers=3) as ex:
         for tag, r in ex.map(one, runs):
@@ -157,16 +165,23 @@ def design_checks(ctx, thorough):
 
 def directed_scripts(ctx):
     """one as-is run per deviation; returns {dev: history} (TLC's shortest counterexample)."""
-    inv = ["CexCrossStore", "CexNamesUnique", "CexKeysUnique", "CexDeletedIsGone"]
+    # failing-request windows are searched with the strict clause (after every completed
+    # request); whether the real code shows them is read from the harness' `pending` list
+    inv = ["CexCrossStoreStrict", "CexNamesUnique", "CexKeysUnique", "CexDeletedIsGone"]
     out = {}
     stats = []
+    ctx.spec_copy(AREA)
 
     def one(d):
-        consts = CALIB[d]
+        consts = {k: v for k, v in CALIB[d].items() if not k.startswith("_")}
+        on = {d: True}
+        for w in CALIB[d].get("_with", []):
+            on[w] = True
         c = dict(BASE)
         c.update(consts)
+        myinv = [CALIB[d].get("_inv", inv[0])] + inv[1:]
         r = ctx.tlc(AREA, "ChannelSvcGen", "cex_%s.cfg" % d,
-                    files={"cex_%s.cfg" % d: cfg("GSpec", consts, {d: True}, inv, depth=c["MaxReq"])},
+                    files={"cex_%s.cfg" % d: cfg("GSpec", consts, on, myinv, depth=c["MaxReq"], view="NoHist")},
                     tag="cex_" + d, workers=2, timeout=900, expect_violation=True)
         return d, r
     with concurrent.futures.ThreadPoolExecutor(max_workers=4) as ex:
@@ -265,14 +280,26 @@ def gen_profiles(thorough):
 
 
 def run(ctx):
+    import time
     thorough = ctx.tier == "thorough"
     notes = ctx.notes
     confirmed = {}
+    phases = {}
+    t_phase = [time.time()]
+
+    def phase(name):
+        now = time.time()
+        phases[name] = round(now - t_phase[0], 1)
+        t_phase[0] = now
+        if os.environ.get("VERIF_DEBUG"):
+            print("[c15] phase %s %.1fs" % (name, phases[name]), flush=True)
     # 1. design level, masked
     design = design_checks(ctx, thorough)
     zero = [z for d in design for z in d.get("zero_coverage", [])]
+    phase("design")
     # 2. as-is, one deviation at a time -> directed scripts
     scripts, cex_stats = directed_scripts(ctx)
+    phase("as-is-cex")
     # 3. directed scripts on the real code: verdicts + calibration
     devs = {}
     order = list(DEVS)
@@ -290,10 +317,11 @@ def run(ctx):
             if row is not None:
                 row["id"] = i
                 rowmap[i] = row
-        sigs = [v["sig"] for v in (row or {}).get("viol", [])] if row and row["r"] == "viol" else []
+        sigs = [v["sig"] for v in ((row or {}).get("viol") or []) + ((row or {}).get("pending") or [])]
         devs[d] = any(re.search(DEVS[d], s) for s in sigs)
     report_rows(ctx, [r for r in rowmap.values() if r], by_id, "directed", notes, confirmed)
     calibration = {d: ("present" if v else "absent") for d, v in devs.items()}
+    phase("directed-replay")
     # 4. generated behaviours with the calibrated constants
     total = 0
     samples = []
@@ -344,6 +372,7 @@ def run(ctx):
         if prof["mode"] == "bfs":
             states += r.distinct
             trans += r.generated
+        phase("gen:" + tag)
     # drift / inconclusive rows must reproduce to count
     real_drift = []
     for tag, h, row in drift_rows[:6]:
@@ -362,6 +391,7 @@ def run(ctx):
         "design_runs": design,
         "as_is_counterexamples": cex_stats,
         "calibration": calibration,
+        "phase_wall_s": phases,
         "generation": gens,
         "mechanisms": {k: v for k, v in sorted(mech.items()) if k.startswith("stat:")},
         "rule": "masked design check of ChannelSvc.tla (all clauses, failure injection after every step, any peer order); "
